@@ -567,9 +567,19 @@ func (x *Exec) runInstrs(fr *Frame, st *State, b *ssa.BasicBlock, start int) (ne
 			continue
 		case *ssa.DebugRef:
 			if id, ok := in.Expr.(*ast.Ident); ok {
-				if _, isv := in.X.(*ssa.Const); !isv || true {
-					fr.names[id.Name] = in.X
+				// a name bound to the address of a variable (a captured variable of a closure, an escaping
+				// local) keeps denoting that variable: specifications read its current value through the
+				// address; a later reference (a load of the variable) must not rebind the name to the
+				// value that load happened to see
+				cur, bound := fr.names[id.Name]
+				_, curFV := cur.(*ssa.FreeVar)
+				_, curAl := cur.(*ssa.Alloc)
+				if bound && (curFV || curAl) && !in.IsAddr {
+					// (loads of the variable and the values stored into it both come as non-address
+					// references; the variable's address already gives its current value)
+					continue
 				}
+				fr.names[id.Name] = in.X
 			}
 			continue
 		case *ssa.Jump:
